@@ -754,6 +754,16 @@ class Exec(Engine):
             self.inlined.add(key)
             return self.call_inline(st, fv.node, self.world.def_env(self, st, fv), args, kwargs, node,
                                     starv, dstar, self_val, qual=fv.qualname)
+        body_nodes = list(ast.walk(ast.Module(body=list(fv.node.body), type_ignores=[]))) if hasattr(fv.node, 'body') \
+            and isinstance(fv.node.body, list) else None
+        if body_nodes is not None and not any(isinstance(x, (ast.For, ast.While, ast.Yield, ast.YieldFrom)) for x in body_nodes):
+            # a helper without contract (typically introduced by the change under test): a loop-free body is simply
+            # executed in place (its text becomes part of the caller's hash); anything else needs a contract
+            self.inlined.add(key)
+            self.notes.append('%s:%d: %s has no contract; loop-free, executed in place'
+                              % (self.rel, getattr(node, 'lineno', 0), key))
+            return self.call_inline(st, fv.node, self.world.def_env(self, st, fv), args, kwargs, node,
+                                    starv, dstar, self_val, qual=fv.qualname)
         raise EngineError('%s:%d: call of %s which has neither a contract nor an inline declaration'
                           % (self.rel, getattr(node, 'lineno', 0), key))
 
